@@ -194,6 +194,21 @@ pub fn transcript_records(ctx: &Ctx) -> (Vec<(String, String)>, Vec<(String, Str
                 Err(p) => format!("panic {}", p),
             }));
         }
+        // strict builds: inputs with several faults at once (which one is reported must not depend
+        // on tables / SIMD)
+        if api.caps().strict {
+            for (i, s) in ctx.sample_values(&format!("tr-gated/{}", v.name), 700 * k, &gens::gated_text_strategy(v)).into_iter().enumerate() {
+                let p = super::codec::MODES[i % 3];
+                let r = catch(|| va.from_str_bytes(&s, p));
+                core.push((format!("{} parse(gated) {:?} {}", v.name, p, hex(&s)), match r {
+                    Ok(r) => res_h(&r, n),
+                    Err(p) => format!("panic {}", p),
+                }));
+                if let Ok(b) = crate::ctx::catch(|| va.try_from_slice(&s[..s.len().min(n)])) {
+                    core.push((format!("{} try_from(gated) {}", v.name, hex(&s[..s.len().min(n)])), res_h(&b, n)));
+                }
+            }
+        }
         // generation under all options
         for d in ctx.sample_values(&format!("tr-data/{}", v.name), 120 * k, &gens::data_strategy(v, 4000)) {
             let data = d.render();
